@@ -83,6 +83,11 @@ Definition qsqrt (q : Q) : option Q :=
   else let rn := Z.sqrt n in let rd := Z.sqrt d in
        if Z.eqb (rn * rn) n && Z.eqb (rd * rd) d then Some (Qred (Qmake rn (Z.to_pos rd))) else None.
 
+(* gamma at the natural numbers 1..40 is a factorial (what sympy folds it to); elsewhere it has no rational value *)
+Fixpoint zfact (n : nat) : Z := match n with O => 1%Z | S k => (Z.of_nat (S k) * zfact k)%Z end.
+Definition gammaQ (a : Q) : option Q :=
+  if is_int a && Z.leb 1 (to_int a) && Z.leb (to_int a) 40 then Some (inject_Z (zfact (Z.to_nat (to_int a - 1)))) else None.
+
 Definition stdIo (o : op) (args : list Q) : option Q :=
   match o, args with
   | OAdd, _ => Some (Qred (fold_right (fun a b => Qred (a + b)) 0 args))
@@ -112,6 +117,7 @@ Definition stdIo (o : op) (args : list Q) : option Q :=
   | OMin, a :: rest => Some (fold_right Qmin a rest)
   | OFloor, [a] => Some (inject_Z (Qfloor a))
   | OCeil, [a] => Some (inject_Z (Qceiling a))
+  | OFun f, [a] => if String.eqb f "gamma" then gammaQ a else Some (Qred (funQ f args))
   | OFun f, _ => Some (Qred (funQ f args))
   | _, _ => None
   end.
